@@ -17,18 +17,22 @@ type Client struct {
 
 // Release returns client to the pool.
 func (c *Client) Release() {
-	if c.res == nil {
+	res := c.res
+	if res == nil {
+		return
+	}
+	// Resource can be acquired by another client as soon as it is released,
+	// so repeated Release should not touch it.
+	c.res = nil
+
+	client := res.Value().client
+
+	if client.IsClosed() || time.Since(res.CreationTime()) > c.p.options.MaxConnLifetime {
+		res.Destroy()
 		return
 	}
 
-	client := c.client()
-
-	if client.IsClosed() || time.Since(c.res.CreationTime()) > c.p.options.MaxConnLifetime {
-		c.res.Destroy()
-		return
-	}
-
-	c.res.Release()
+	res.Release()
 }
 
 func (c *Client) Do(ctx context.Context, q ch.Query) (err error) {
